@@ -420,6 +420,38 @@ fn exercise(name: &str, spec: &ProgSpec, rng: &mut Rng, n_tuples: usize) -> Out1
     out
 }
 
+pub fn limit_templates() -> Vec<(String, String)> {
+    let mut v: Vec<(String, String)> = Vec::new();
+    let list = |n: usize, f: &dyn Fn(usize) -> String| (0..n).map(f).collect::<Vec<_>>().join(", ");
+    v.push(("duplicate_parameter".into(), "function f(a, a) -> a;\nprint(\"~\\n\", f(1, 2))\n".into()));
+    v.push(("duplicate_parameter_method".into(), "let o = object begin function m(a, b, a) -> a + b; end;\nprint(\"~\\n\", o.m(1, 2, 3))\n".into()));
+    v.push(("parameter_named_like_local".into(), "function f(a) -> begin let a = 2; a end;\nprint(\"~\\n\", f(1))\n".into()));
+    v.push(("duplicate_global".into(), "let x = 1;\nlet x = 2;\nprint(\"~\\n\", x)\n".into()));
+    v.push(("duplicate_function".into(), "function f() -> 1;\nfunction f() -> 2;\nprint(\"~\\n\", f())\n".into()));
+    v.push(("duplicate_field".into(), "let o = object begin let a = 1; let a = 2; end;\nprint(\"~\\n\", o)\n".into()));
+    v.push(("duplicate_method".into(), "let o = object begin function m() -> 1; function m() -> 2; end;\nprint(\"~\\n\", o.m())\n".into()));
+    v.push(("duplicate_local_in_block".into(), "begin let x = 1; let x = 2; print(\"~\\n\", x) end\n".into()));
+    for n in [254usize, 255, 256, 257, 300] {
+        v.push((format!("function_{}_parameters", n), format!("function f({}) -> p0;\nprint(\"~\\n\", f({}))\n", list(n, &|i| format!("p{}", i)), list(n, &|i| format!("{}", i)))));
+        v.push((format!("call_{}_arguments_to_unary", n), format!("function f(a) -> a;\nprint(\"~\\n\", f({}))\n", list(n, &|i| format!("{}", i)))));
+        v.push((format!("print_{}_arguments", n), format!("print(\"{}\\n\", {})\n", "~".repeat(n), list(n, &|i| format!("{}", i)))));
+        v.push((format!("method_{}_arguments", n), format!("let o = object begin function m({}) -> q0; end;\nprint(\"~\\n\", o.m({}))\n", list(n, &|i| format!("q{}", i)), list(n, &|i| format!("{}", i)))));
+        v.push((format!("function_{}_locals", n), format!("function f() -> begin {}; l0 end;\nprint(\"~\\n\", f())\n", (0..n).map(|i| format!("let l{} = {}", i, i)).collect::<Vec<_>>().join("; "))));
+        v.push((format!("object_{}_fields", n), format!("let o = object begin {}; end;\nprint(\"~\\n\", o.a0)\n", (0..n).map(|i| format!("let a{} = {}", i, i)).collect::<Vec<_>>().join("; "))));
+    }
+    v.push(("integer_literal_out_of_range".into(), "print(\"~\\n\", 2147483648)\n".into()));
+    v.push(("integer_literal_min".into(), "print(\"~\\n\", -2147483648)\n".into()));
+    v.push(("integer_literal_below_min".into(), "print(\"~\\n\", -2147483649)\n".into()));
+    v.push(("array_size_max".into(), "let a = array(2147483647 - 2147483647, 0);\nprint(\"~\\n\", a)\n".into()));
+    v.push(("arithmetic_extremes".into(), "print(\"~ ~ ~ ~ ~\\n\", 2147483647 + 1, (-2147483648) - 1, 65536 * 65536, 46341 * 46341, (-2147483648) * (-1))\n".into()));
+    v.push(("division_extremes".into(), "print(\"~ ~ ~ ~\\n\", (-7) / 2, (-7) % 2, 7 / (-2), 7 % (-2));\nprint(\"~\\n\", (-2147483648) / (-1))\n".into()));
+    v.push(("remainder_min_by_minus_one".into(), "print(\"~\\n\", (-2147483648) % (-1))\n".into()));
+    v.push(("empty_program".into(), "\n".into()));
+    v.push(("only_function".into(), "function f() -> 1\n".into()));
+    v.push(("function_last_in_top".into(), "print(\"a\\n\");\nfunction f() -> 1\n".into()));
+    v
+}
+
 pub fn run(seed: u64, tier: &str, ev: &mut Evidence) -> Vec<Violation> {
     let (n_gen, n_tuples) = if tier == "thorough" { (8000usize, 20usize) } else { (150, 9) };
     let mut specs: Vec<(String, ProgSpec)> = work::corpus_specs().into_iter().filter(|(_, s)| s.source().is_some()).map(|(n, s)| (format!("corpus:{}", n), s)).collect();
@@ -438,6 +470,11 @@ pub fn run(seed: u64, tier: &str, ev: &mut Evidence) -> Vec<Violation> {
             }
         }
         specs.push((format!("gen:{}", j), spec));
+    }
+    // W1e: programs at the limits of the format's index widths and of the compiler's own checks —
+    // where debug-only assertions, overflow checks and `as` casts could make the profiles disagree.
+    for (name, src) in limit_templates() {
+        specs.push((format!("limit:{}", name), ProgSpec::Source(src)));
     }
     let outs: Vec<Out1> = par_map(specs.len(), |i| {
         let mut rng = Rng::for_case(seed, "C11", ENGINE, i as u64);
